@@ -54,7 +54,6 @@ func (zr *Reader) Reset(r io.Reader) error {
 
 		mtf: zr.mtf,
 		bwt: zr.bwt,
-		rle: zr.rle,
 
 		treeSels: zr.treeSels,
 		trees1D:  zr.trees1D,
